@@ -12,9 +12,9 @@ Emit == PrintT("@@CASE " \o ToJson([choice |-> c, schema |-> Valid(c),
                                     pydiamond |-> {Valid(c).ents[i].name : i \in {j \in 1..Len(Valid(c).ents) : Dev_PyCtorRepeatsSharedAncestor(Valid(c), Valid(c).ents[j].name)}},
                                     dict |-> Dictionary(Valid(c)),
                                     devtypes |-> {[name |-> Valid(c).types[i].name,
-                                                   dev |-> IF Dev_NestedAggrNotRegistered(Valid(c), Valid(c).types[i]) THEN "Dev_NestedAggrNotRegistered" ELSE "Dev_RenamedEnumNotRegistered"] :
+                                                   dev |-> "Dev_NestedAggrNotRegistered"] :
                                                   i \in {j \in 1..Len(Valid(c).types) :
-                                                    Dev_RenamedEnumNotRegistered(Valid(c), Valid(c).types[j]) \/ Dev_NestedAggrNotRegistered(Valid(c), Valid(c).types[j])}},
+                                                    Dev_NestedAggrNotRegistered(Valid(c), Valid(c).types[j])}},
                                     mutants |-> IF WithMutants THEN Mutants(c) \cup LexMutants ELSE {}]))
 (* AttrOrder has no duplicates and ends with the entity's own attributes *)
 OrderSane == \A i \in 1..Len(Valid(c).ents) :
